@@ -214,9 +214,9 @@ private:
         return *prop;
     }
     GeometryKernelT<VecT> make_prop() {
-        auto prop = this->template create_shared_property<VecT, Entity::Vertex>("ovm:position", VecT(0));
-        assert(prop.has_value());
-        return *prop;
+        // request (not create): when the position property was made persistent, copy
+        // construction / assignment has already cloned it into this mesh.
+        return this->template request_property<VecT, Entity::Vertex>("ovm:position", VecT(0));
     }
 
 private:
